@@ -38,7 +38,7 @@ import itertools
 from typing import List
 
 from pydcop.utils.expressionfunction import ExpressionFunction
-from pydcop.utils.simple_repr import SimpleRepr, SimpleReprException
+from pydcop.utils.simple_repr import SimpleRepr, SimpleReprException, from_repr
 
 VariableName = str
 
@@ -459,6 +459,21 @@ class VariableWithCostDict(Variable):
         return VariableWithCostDict(
             self.name, self.domain, self._costs, initial_value=self.initial_value
         )
+
+    @classmethod
+    def _from_repr(cls, r):
+        args = {
+            k: from_repr(v)
+            for k, v in r.items()
+            if k not in ["__qualname__", "__module__"]
+        }
+        # Once through JSON, the keys of the costs are strings: map them back
+        # to the values of the domain they stand for.
+        costs = args["costs"]
+        for value in args["domain"]:
+            if value not in costs and str(value) in costs:
+                costs[value] = costs.pop(str(value))
+        return cls(**args)
 
 
 class VariableWithCostFunc(Variable):
